@@ -1,2 +1,111 @@
-(* C11 statements; proofs in Proofs/. *)
-From BaoV Require Import Model.IOSched.
+(* C11 - results do not depend on how the transport slices the bytes (short reads, Interrupted returns,
+   Pending polls).  Statements only; proofs in Proofs/. *)
+From BaoV Require Import Model.IOSched Proofs.IOReadExact Proofs.IODecodeIndep.
+
+(* std Read::read_exact over any schedule = the read on the plain byte list *)
+Theorem C11_read_exact_indep : forall (HO : hops) (r : reader HO) (len : N),
+  rd_fail HO r = None -> len <= blen HO (rd_rest HO r) ->
+  exists r', read_exact_sync HO r len = (Ok (firstn (N.to_nat len) (rd_rest HO r)), r') /\
+    rd_rest HO r' = skipn (N.to_nat len) (rd_rest HO r) /\ rd_fail HO r' = None /\
+    (exists consumed, rd_sched HO r = consumed ++ rd_sched HO r').
+Proof. exact read_exact_sync_enough. Qed.
+Print Assumptions C11_read_exact_indep.
+
+Theorem C11_read_exact_indep_eof : forall (HO : hops) (r : reader HO) (len : N),
+  rd_fail HO r = None -> blen HO (rd_rest HO r) < len ->
+  exists r', read_exact_sync HO r len = (Err KUnexpectedEof, r') /\ rd_fail HO r' = None /\
+    (exists consumed, rd_sched HO r = consumed ++ rd_sched HO r').
+Proof. exact read_exact_sync_short. Qed.
+Print Assumptions C11_read_exact_indep_eof.
+
+Theorem C11_read_exact_indep_plain : forall (HO : hops) (r : reader HO) (len : N),
+  rd_fail HO r = None ->
+  fst (read_exact_sync HO r len) = fst (read_exact_sync HO (plain_reader HO (rd_rest HO r)) len).
+Proof. exact read_exact_sync_plain. Qed.
+Print Assumptions C11_read_exact_indep_plain.
+
+(* tokio read_exact: no Interrupted retry, so for schedules without EIntr *)
+Theorem C11_tokio_read_exact_indep : forall (HO : hops) (r : reader HO) (len : N),
+  rd_fail HO r = None -> (forall e, In e (rd_sched HO r) -> e <> EIntr) -> len <= blen HO (rd_rest HO r) ->
+  exists r', tokio_read_n HO r len = (Ok (firstn (N.to_nat len) (rd_rest HO r)), r') /\
+    rd_rest HO r' = skipn (N.to_nat len) (rd_rest HO r) /\ rd_fail HO r' = None /\
+    (exists consumed, rd_sched HO r = consumed ++ rd_sched HO r').
+Proof. exact tokio_read_n_enough. Qed.
+Print Assumptions C11_tokio_read_exact_indep.
+
+Theorem C11_tokio_read_exact_indep_eof : forall (HO : hops) (r : reader HO) (len : N),
+  rd_fail HO r = None -> (forall e, In e (rd_sched HO r) -> e <> EIntr) -> blen HO (rd_rest HO r) < len ->
+  exists r', tokio_read_n HO r len = (Err KUnexpectedEof, r') /\ rd_fail HO r' = None /\
+    (exists consumed, rd_sched HO r = consumed ++ rd_sched HO r').
+Proof. exact tokio_read_n_short. Qed.
+Print Assumptions C11_tokio_read_exact_indep_eof.
+
+(* read_bytes_exact = take(len).read_to_end + length check: every schedule, EIntr included *)
+Theorem C11_tokio_read_bytes_exact_indep : forall (HO : hops) (r : reader HO) (len : N),
+  rd_fail HO r = None -> len <= blen HO (rd_rest HO r) ->
+  exists r', tokio_read_bytes_exact HO r len = (Ok (firstn (N.to_nat len) (rd_rest HO r)), r') /\
+    rd_rest HO r' = skipn (N.to_nat len) (rd_rest HO r) /\ rd_fail HO r' = None /\
+    (exists consumed, rd_sched HO r = consumed ++ rd_sched HO r').
+Proof. exact tokio_read_bytes_exact_enough. Qed.
+Print Assumptions C11_tokio_read_bytes_exact_indep.
+
+Theorem C11_tokio_read_bytes_exact_indep_eof : forall (HO : hops) (r : reader HO) (len : N),
+  rd_fail HO r = None -> blen HO (rd_rest HO r) < len ->
+  exists r', tokio_read_bytes_exact HO r len = (Err KUnexpectedEof, r') /\ rd_fail HO r' = None /\
+    (exists consumed, rd_sched HO r = consumed ++ rd_sched HO r').
+Proof. exact tokio_read_bytes_exact_short. Qed.
+Print Assumptions C11_tokio_read_bytes_exact_indep_eof.
+
+(* the sync decoder: same items, same outcome, for every stream and every schedule *)
+Theorem C11_decode_indep_sync : forall (HO : hops) root t (stream : bytes HO) (sched : list ev) q,
+  fst (dec_run_r HO (dec_new_r HO root t (mkRd HO stream sched 0 None) q))
+  = fst (dec_run HO (dec_new HO root t stream q)).
+Proof. exact decode_indep_sync. Qed.
+Print Assumptions C11_decode_indep_sync.
+
+(* ... and the same final iterator, stack and - unless the run ended at the end of the stream - unread remainder *)
+Theorem C11_decode_indep_sync_state : forall (HO : hops) root t (stream : bytes HO) (sched : list ev) q,
+  let x := dec_run_r HO (dec_new_r HO root t (mkRd HO stream sched 0 None) q) in
+  let y := dec_run HO (dec_new HO root t stream q) in
+  dr_inner HO (snd x) = d_inner HO (snd y) /\ dr_stack HO (snd x) = d_stack HO (snd y) /\
+  (match snd (fst x) with Failed (DParentNotFound _) | Failed (DLeafNotFound _) => true | _ => false end = false ->
+   rd_rest HO (dr_rd HO (snd x)) = d_enc HO (snd y)).
+Proof. exact decode_indep_sync_state. Qed.
+Print Assumptions C11_decode_indep_sync_state.
+
+(* the fsm decoder (tokio read_exact for parents): same for every schedule without Interrupted *)
+Theorem C11_decode_indep_fsm : forall (HO : hops) root q t (stream : bytes HO) (sched : list ev),
+  (forall e, In e sched -> e <> EIntr) ->
+  fst (rd_run_r HO (rd_new_r HO root q t (mkRd HO stream sched 0 None)))
+  = fst (rd_run HO (rd_new HO root q t stream)).
+Proof. exact decode_indep_fsm. Qed.
+Print Assumptions C11_decode_indep_fsm.
+
+Theorem C11_decode_indep_fsm_state : forall (HO : hops) root q t (stream : bytes HO) (sched : list ev),
+  (forall e, In e sched -> e <> EIntr) ->
+  let x := rd_run_r HO (rd_new_r HO root q t (mkRd HO stream sched 0 None)) in
+  let y := rd_run HO (rd_new HO root q t stream) in
+  rr_iter HO (snd x) = r_iter HO (snd y) /\ rr_stack HO (snd x) = r_stack HO (snd y) /\
+  (match snd (fst x) with Failed (DParentNotFound _) | Failed (DLeafNotFound _) => true | _ => false end = false ->
+   rd_rest HO (rr_rd HO (snd x)) = r_enc HO (snd y)).
+Proof. exact decode_indep_fsm_state. Qed.
+Print Assumptions C11_decode_indep_fsm_state.
+
+(* the hypothesis is needed: an Interrupted during a parent read is not retried *)
+Theorem C11_decode_fsm_interrupted_differs : forall (HO : hops),
+  fst (rd_run_r HO (rd_new_r HO [] [0] (mkTree 2048 0) (mkRd HO [] [EIntr] 0 None))) = ([], Failed (DIo KInterrupted)) /\
+  fst (rd_run HO (rd_new HO [] [0] (mkTree 2048 0) [])) = ([], Failed (DParentNotFound 0)).
+Proof. exact decode_fsm_interrupted_differs. Qed.
+Print Assumptions C11_decode_fsm_interrupted_differs.
+
+(* outboard creation: same result (root or error), same written bytes *)
+Theorem C11_outboard_indep : forall (HO : hops) t (data : bytes HO) (sched : list ev),
+  fst (outboard_post_order_r HO t (mkRd HO data sched 0 None)) = fst (outboard_post_order HO t data).
+Proof. exact outboard_indep. Qed.
+Print Assumptions C11_outboard_indep.
+
+Theorem C11_outboard_indep_rest : forall (HO : hops) t (data : bytes HO) (sched : list ev),
+  fst (fst (outboard_post_order_r HO t (mkRd HO data sched 0 None))) <> Err KUnexpectedEof ->
+  rd_rest HO (snd (outboard_post_order_r HO t (mkRd HO data sched 0 None))) = snd (outboard_post_order HO t data).
+Proof. exact outboard_indep_rest. Qed.
+Print Assumptions C11_outboard_indep_rest.
